@@ -39,7 +39,7 @@ Open Scope Z_scope.
 """
 
 CHECKS = {"total": "l1_total", "clean": "l1_clean", "frames": "l1_frames", "idem": "l1_idem",
-          "L2rec": "l2_records", "L2hdr": "l2_header", "L2fix": "l2_fixed_prefix"}
+          "L2rec": "l2_records", "L2hdr": "l2_header", "L2fix": "l2_fixed_prefix", "L2recfixed": "l2_records_fixed"}
 PCHECKS = {"after": "l1_after_phase", "L2rel": "l2_phase_rel", "L2model": "l2_after_phase"}
 
 KNOWN_EXC = ("IndexError", "TypeError", "KeyError")
@@ -140,6 +140,9 @@ class State:
         self.reported = {}
         self.crash_counts = {}
         self.min_cache = {}
+        self.l2_cases = 0
+        self.l2_fail_cur = []
+        self.l2_fail_fixed = []
 
 
 def check_specs(st, specs, label, perturb=None, depth=0):
@@ -232,13 +235,17 @@ def check_specs(st, specs, label, perturb=None, depth=0):
             nfail += 1
             report(st, sig, f"{what}; input:\n{res['text']}\noutput:\n{res['out1']}\nsecond output:\n{res['out2'][-1500:]}",
                    res["spec"])
-    # ---- L2
-    l2 = sorted(set(failing["L2rec"]) | set(failing["L2hdr"]) | set(failing["L2fix"]))
+    # ---- L2.  The model has the record rule as a switch: cur_rule (the code as it is) or fixed_rule (the repaired
+    # rule).  Every case of a run must agree with the same variant; which one is recorded in the evidence.
+    st.l2_cases += len(cases)
+    st.l2_fail_cur += [kept[i][0] for i in failing["L2rec"]]
+    st.l2_fail_fixed += [kept[i][0] for i in failing["L2recfixed"]]
+    l2 = sorted(set(failing["L2hdr"]) | set(failing["L2fix"]))
     if l2:
         nfail += len(l2)
         ctx.disagreements_checked += len(l2)
-        names = [n for n in ("L2rec", "L2hdr", "L2fix") if failing[n]]
-        ctx.l2_disagreement("Unphase.unphase_file cur_rule / unphase_header = CLI output (" + ",".join(names) + ")",
+        names = [n for n in ("L2hdr", "L2fix") if failing[n]]
+        ctx.l2_disagreement("Unphase.unphase_header / written prefix = map unphase_fixed = CLI output (" + ",".join(names) + ")",
                             [{"spec": kept[i][0]["spec"], "exception": kept[i][0]["exc1"], "output": kept[i][0]["out1"][-800:]}
                              for i in l2])
     # ---- reduce crashing multi-call files to the crashing call
@@ -250,6 +257,26 @@ def check_specs(st, specs, label, perturb=None, depth=0):
             if not ms:
                 report(st, f"unphase:crash-other:{res['exc1']}:no-sample", f"crash on\n{res['text']}", spec)
     return nfail
+
+
+def settle_variant(st):
+    """decide which variant of the record rule the implementation follows (all cases must agree with one)"""
+    ctx = st.ctx
+    if not st.l2_fail_cur:
+        variant = "cur_rule (code as it is)" if st.l2_fail_fixed or not st.l2_cases else "cur_rule = fixed_rule on these inputs"
+        bad = []
+    elif not st.l2_fail_fixed:
+        variant, bad = "fixed_rule (repaired rule)", []
+    else:
+        variant = "none"
+        bad = st.l2_fail_cur if len(st.l2_fail_cur) <= len(st.l2_fail_fixed) else st.l2_fail_fixed
+    ctx.extra["model_variant_matching_implementation"] = variant
+    ctx.log(f"L2 record model variant: {variant} ({st.l2_cases} files; disagree with cur_rule {len(st.l2_fail_cur)}, "
+            f"with fixed_rule {len(st.l2_fail_fixed)})")
+    if bad:
+        ctx.disagreements_checked += len(bad)
+        ctx.l2_disagreement("Unphase.unphase_file (cur_rule | fixed_rule) = CLI records and exception class",
+                            [{"spec": r["spec"], "exception": r["exc1"], "output": r["out1"][-800:]} for r in bad])
 
 
 def report(st, sig, what, spec):
@@ -465,6 +492,7 @@ def run(ctx):
     npay = ctx.n(14, 160)
     pays = [make_phase_payload(rng, gen_phase_scenario(rng)) for _ in range(npay)]
     check_phase(st, pays, perturb=pert if os.environ.get("WHVERIF_C13_PERTURB") == "order" else None)
+    settle_variant(st)
     ctx.extra["crash_signature_counts"] = st.crash_counts
     ctx.extra["violations_by_signature"] = st.reported
 
@@ -473,6 +501,7 @@ def replay(ctx, data):
     st = State(ctx)
     if data.get("kind") == "spec":
         check_specs(st, [data["spec"]], "replay")
+        settle_variant(st)
     elif data.get("kind") == "phase":
         check_phase(st, [data["payload"]], "replay")
     else:
